@@ -15,8 +15,8 @@ Quiescent == ready = <<>>
 \* one of these deviation clauses is excused for THAT property only.
 DevOf(p) == CASE p = "C01" -> {}
               [] p = "C02" -> {"D7", "D9", "D10"}
-              [] p = "C03" -> {"D3", "D7", "D10", "D11"}
-              [] p = "C04" -> {"D3", "D9", "D10"}
+              [] p = "C03" -> {"D7", "D10", "D11"}
+              [] p = "C04" -> {"D9"}
               [] p = "C05" -> {"D10"}
               [] p = "C06" -> {}
               [] p = "C10" -> {}
